@@ -47,14 +47,14 @@ CHECKS = {
     },
     "C06": {
         "scenarios": [{"name": "dups"}],
-        "accept": ["dups:"],
+        "accept": ["dups:", "holding:passed-over"],
         "technique": "Lean: execution marks the entry hash, the mark is permanent over every chain (relation rows only grow: invariant lifted through the whole block), marked or already-recorded entries are skipped, holding window visits strictly earlier heights. Tie: repetition patterns synced with and without the duplicates, lock-step with the model",
         "assumptions": [ORACLES],
         "design_ref": "DESIGN.md §7 C06",
     },
     "C07": {
         "scenarios": [{"name": "convert"}, {"name": "ledger"}],
-        "accept": ["convert:", "conversion:"],
+        "accept": ["convert:", "conversion:", "holding:passed-over"],
         "technique": "Lean: Convert succeeds iff its guards hold and then returns floor(amt*src/dst) within int64, src=min/dst=max under PIP-10, value non-increasing, all reject cases. Tie: conversions.Convert on edge/random inputs vs the model; chains with graded/ungraded patterns, recorded to_amount vs recorded rates, never executed in the submitting block",
         "assumptions": ["big.Int arithmetic modelled by Int/Nat"],
         "design_ref": "DESIGN.md §7 C07",
@@ -88,9 +88,9 @@ CHECKS = {
         "design_ref": "DESIGN.md §7 C11",
     },
     "C12": {
-        "scenarios": [{"name": "inband"}, {"name": "ledger"}],
-        "accept": ["inband:", "rates:"],
-        "technique": "Lean: rate rows of other heights untouched by any block (relation lifted through the whole block transaction) hence immutable over every chain; no rates = no conversions; exact binary64 band rule; regenerated tolerances. Tie: band test at and around both edges vs Go floats; lock-step chains with in-band / out-of-band SPR sets in every era",
+        "scenarios": [{"name": "inband"}, {"name": "assetrates"}, {"name": "ledger"}],
+        "accept": ["inband:", "rates:", "assetrates:"],
+        "technique": "Lean: rate rows of other heights untouched by any block (relation lifted through the whole block transaction) hence immutable over every chain; no rates = no conversions; exact binary64 band rule; regenerated tolerances. Tie: band test at and around both edges vs Go floats; the real GetAssetRatesV0 / GetAssetRates on generated asset lists vs the model and the per-asset rule; lock-step chains with in-band / out-of-band SPR sets in every era",
         "assumptions": [ORACLES, "a healthy Factom node serves each height once"],
         "design_ref": "DESIGN.md §7 C12",
     },
@@ -124,7 +124,7 @@ CHECKS = {
     },
     "C17": {
         "scenarios": [{"name": "ledger"}],
-        "accept": ["history-replay:"],
+        "accept": ["history-replay:", "paging:", "holding:"],
         "technique": "Lean: pages at offsets 0, 50, ... partition any ordered result; arrival records pending; rejected batch has no effect; status update hits exactly the rows of the hash; kernel-checked witness that an unconvertible amount stays pending. Tie: lock-step chain; monitor replays the whole history (+ scheduled adjustments) to the balances after every block",
         "assumptions": [ORACLES, "API paging is modelled as LIMIT/OFFSET over a fixed ordered list"],
         "design_ref": "DESIGN.md §7 C17",
